@@ -302,6 +302,9 @@ func (h *VH) Handle(cx *layer4.Connection, next layer4.Handler) error {
 		return nil
 	}
 	rec := recOf(cx)
+	if rec == nil && h.K == "pass" {
+		return next.Handle(cx) // a non-terminal handler that does nothing needs no recorder
+	}
 	if rec == nil {
 		return errors.New("verif_h: no recorder on connection")
 	}
